@@ -147,16 +147,16 @@ Lemma block_width : BLOCK_WIDTH = 8.
 Proof. reflexivity. Qed.
 
 (* pack_bits_block *)
-Theorem pack_block_correct : forall w vs,
+Lemma pack_block_generic : forall tbl, tbl_ok (check_packed 8) tbl = true -> forall w vs,
   (1 <= w <= 63)%nat -> length vs = 8%nat -> Forall (fun x => x < 2 ^ 64) vs ->
-  pack_bits_block vs (N.of_nat w) = Ok (pack_stream w vs).
+  pack_bits_block_tbl tbl vs (N.of_nat w) = Ok (pack_stream w vs).
 Proof.
-  intros w vs Hw Hlen Hvs. unfold pack_bits_block. rewrite block_width, Hlen.
+  intros tbl Htbl w vs Hw Hlen Hvs. unfold pack_bits_block_tbl. rewrite block_width, Hlen.
   change (N.of_nat 8 =? 8) with true. cbn [negb].
   destruct (N.leb_spec 1 (N.of_nat w)); [|lia]. destruct (N.leb_spec (N.of_nat w) 63); [|lia]. cbn [andb negb].
   destruct (N.ltb_spec (N.of_nat w) (N.of_nat w * 8)); [|lia]. cbn [negb].
   rewrite Nat2N.id.
-  destruct (tbl_ok_get _ _ w gen_pack_ok Hw) as [es [Hes Hchk]]. rewrite Hes.
+  destruct (tbl_ok_get _ _ w Htbl Hw) as [es [Hes Hchk]]. rewrite Hes.
   pose proof Hchk as Hchk'. unfold check_packed in Hchk'. apply andb_prop in Hchk' as [Hl _]. apply Nat.eqb_eq in Hl.
   assert (Hl' : length es = w).
   { rewrite Hl. replace (8 * w + 7)%nat with (7 + w * 8)%nat by lia. rewrite Nat.div_add by lia. cbn. lia. }
@@ -165,28 +165,30 @@ Proof.
   f_equal. apply (packed_sound 8); try assumption. lia.
 Qed.
 
+Theorem pack_block_correct : forall w vs,
+  (1 <= w <= 63)%nat -> length vs = 8%nat -> Forall (fun x => x < 2 ^ 64) vs ->
+  pack_bits_block vs (N.of_nat w) = Ok (pack_stream w vs).
+Proof. exact (pack_block_generic _ gen_pack_ok). Qed.
+
 (* unpack_bits_block *)
-Theorem unpack_block_correct : forall w bs,
+Lemma unpack_block_generic : forall tbl, tbl_ok (check_unpacked 8) tbl = true -> forall w bs,
   (1 <= w <= 63)%nat -> length bs = w -> Forall (fun x => x < 2 ^ 8) bs ->
-  unpack_bits_block bs (N.of_nat w) = Ok (map (field w bs) (seq 0 8)).
+  unpack_bits_block_tbl tbl bs (N.of_nat w) = Ok (map (field w bs) (seq 0 8)).
 Proof.
-  intros w bs Hw Hlen Hbs. unfold unpack_bits_block. rewrite block_width, Hlen.
+  intros tbl Htbl w bs Hw Hlen Hbs. unfold unpack_bits_block_tbl. rewrite block_width, Hlen.
   destruct (N.leb_spec 1 (N.of_nat w)); [|lia]. destruct (N.leb_spec (N.of_nat w) 63); [|lia]. cbn [andb negb].
   destruct (N.ltb_spec (N.of_nat w) (N.of_nat w * 8)); [|lia]. cbn [negb].
   rewrite Nat2N.id.
-  destruct (tbl_ok_get _ _ w gen_unpack_ok Hw) as [es [Hes Hchk]]. rewrite Hes.
+  destruct (tbl_ok_get _ _ w Htbl Hw) as [es [Hes Hchk]]. rewrite Hes.
   pose proof Hchk as Hchk'. unfold check_unpacked in Hchk'. apply andb_prop in Hchk' as [Hl _]. apply Nat.eqb_eq in Hl.
   rewrite Hl. change (N.of_nat 8 =? 8) with true. cbv iota.
   f_equal. apply unpacked_sound; assumption.
 Qed.
 
-Lemma tail_get : forall (b : bool) (f : nat -> nat -> bool) w r,
-  forallb (fun w => forallb (fun r => f w r) (seq 1 7)) widths = true ->
-  (1 <= w <= 63)%nat -> (1 <= r <= 7)%nat -> f w r = true.
-Proof.
-  intros _ f w r H Hw Hr. rewrite forallb_forall in H. specialize (H w (proj2 (widths_In w) Hw)).
-  rewrite forallb_forall in H. apply H. apply in_seq. lia.
-Qed.
+Theorem unpack_block_correct : forall w bs,
+  (1 <= w <= 63)%nat -> length bs = w -> Forall (fun x => x < 2 ^ 8) bs ->
+  unpack_bits_block bs (N.of_nat w) = Ok (map (field w bs) (seq 0 8)).
+Proof. exact (unpack_block_generic _ gen_unpack_ok). Qed.
 
 (* the BitPacker tail of serialize_v4 *)
 Theorem pack_tail_correct : forall w vs,
@@ -194,8 +196,9 @@ Theorem pack_tail_correct : forall w vs,
   pack_tail (N.of_nat w) vs = Ok (pack_stream w vs).
 Proof.
   intros w vs Hw Hr Hvs. unfold pack_tail.
-  pose proof (tail_get true (fun w r => match pack_tail_exps (N.of_nat w) r with Ok es => check_packed r w es | _ => false end)
-                w (length vs) tail_pack_ok Hw Hr) as H. cbv beta in H.
+  pose proof tail_pack_ok as H. unfold tail_pack_ok_b in H. rewrite forallb_forall in H.
+  specialize (H w (proj2 (widths_In w) Hw)). rewrite forallb_forall in H.
+  specialize (H (length vs) (proj2 (in_seq 7 1 (length vs)) ltac:(lia))).
   destruct (pack_tail_exps (N.of_nat w) (length vs)) as [es| |]; try discriminate.
   cbn [obind]. f_equal. apply (packed_sound (length vs)); auto. lia.
 Qed.
@@ -206,8 +209,9 @@ Theorem unpack_tail_correct : forall w r bs,
   unpack_tail (N.of_nat w) r bs = Ok (map (field w bs) (seq 0 r)).
 Proof.
   intros w r bs Hw Hr Hbs. unfold unpack_tail.
-  pose proof (tail_get true (fun w r => match unpack_tail_exps (N.of_nat w) r with Ok es => check_unpacked r w es | _ => false end)
-                w r tail_unpack_ok Hw Hr) as H. cbv beta in H.
+  pose proof tail_unpack_ok as H. unfold tail_unpack_ok_b in H. rewrite forallb_forall in H.
+  specialize (H w (proj2 (widths_In w) Hw)). rewrite forallb_forall in H.
+  specialize (H r (proj2 (in_seq 7 1 r) ltac:(lia))).
   destruct (unpack_tail_exps (N.of_nat w) r) as [es| |]; try discriminate.
   cbn [obind]. f_equal. apply unpacked_sound; assumption.
 Qed.
